@@ -118,6 +118,14 @@ def generate(seed, tier="quick"):
         if o.random() < 0.7:
             prep.append({"op": "group", "view": [["branch", {"t": "int", "v": o.randrange(64)}]], "name": src})  # src assembled in steps
         prep.append({"op": "group", "view": [["group", src]], "name": o.choice([n_ for n_ in ["g1", "g2", "g3"] if n_ != src])})
+    if shape["kind"] == "cell" and o.random() < 0.3:
+        # a group made from select(nodes=[...]) with the compartments of whole branches listed in descending branch
+        # order: the stored index array is not ascending when the set_ncomp calls re-index it
+        nc_ = shape["cells"][0]["ncomp"]
+        off_ = [sum(nc_[:b_]) for b_ in range(len(nc_))]
+        bs_ = sorted(o.sample(range(len(nc_)), min(len(nc_), o.randint(2, 3))), reverse=True)
+        comps_ = [off_[b_] + k_ for b_ in bs_ for k_ in range(nc_[b_])]
+        prep.append({"op": "group", "view": [["select_nodes", {"t": "ulist", "v": comps_}]], "name": "g3", "branches": bs_})
     calls = []
     for _ in range(o.randint(1, 5)):
         k = o.random()
@@ -356,7 +364,8 @@ def execute(program):
         shape2 = copy.deepcopy(program["shape"])
         shape2["cells"][0]["ncomp"] = final
         direct_w = World(shape2)
-        j_ = apply_prep(direct_w, program["prep"])
+        # (a group given as a list of compartments denotes, in the directly built module, the same *branches*)
+        j_ = apply_prep(direct_w, [dict(p_, view=[["branch", {"t": "list", "v": p_["branches"]}]]) if p_.get("branches") else p_ for p_ in program["prep"]])
         # whole-branch assignments made between the set_ncomp calls belong to the directly built module as well
         j_ = apply_prep(direct_w, [c for c in program["calls"] if c["op"] == "set" and len(c["view"]) == 1], j_)
         # "built directly with n compartments in that branch": same branch length, so length per compartment = total / n
